@@ -17,7 +17,10 @@ from .world import World, MARKERS, read_bytes
 from . import oracles as O
 from .corpus import CONTENTS, LEXER_NAME, content_bytes
 
+import re
+
 PROCESS_OPS = ("scan", "check", "report", "findings")
+_LOG_TS = re.compile(r"\[\d{4}-\d\d-\d\d \d\d:\d\d:\d\d,\d{3}\]")
 
 
 def running_version():
@@ -141,7 +144,9 @@ class Executor:
         keep = {k: obs[k] for k in ("outcome", "code", "exc", "where", "noop", "k", "of", "changed", "result",
                                     "fault_fired", "io_ticks", "errno") if k in obs}
         if "stdout" in obs:
-            keep["stdout"] = hashlib.md5(self.world.norm(obs["stdout"]).encode()).hexdigest()
+            # the verbose log line prefix is the only real-clock text the program prints
+            out = _LOG_TS.sub("[TS]", self.world.norm(obs["stdout"]))
+            keep["stdout"] = hashlib.md5(out.encode()).hexdigest()
         if obs.get("report_digest"):
             keep["report"] = obs["report_digest"]
         return json.dumps(keep, sort_keys=True, default=str)
